@@ -144,8 +144,20 @@ def check_unbound_composite(ctx):
                 reads.append((g_, x))
             if isinstance(x, ast.Call) and isinstance(x.func, ast.Attribute) and x.func.attr in ("get", "setdefault") and norm(x.func.value) in memos:
                 reads.append((g_, x))
-    comp = [(g_, t, a) for g_, t, a in looks if not norm(a.value.slice).endswith(".structure")]
-    unguarded = [(g_, x) for g_, x in reads if not norm(getattr(x, "slice", x)).endswith(".structure") and not any(a.value is x for _, _, a in looks)]
+    def is_own_name(g_, sl):
+        """the annotation's own structure string (`cls.structure`, or a local bound once to it): the identifier form"""
+        t_ = norm(sl)
+        if t_.endswith(".structure"):
+            return True
+        if isinstance(sl, ast.Name):
+            defs = [a for a in ast.walk(g_.node) if isinstance(a, ast.Assign) and any(isinstance(tg, ast.Name) and tg.id == sl.id for tg in a.targets)]
+            others = [x for x in ast.walk(g_.node) if isinstance(x, ast.Name) and x.id == sl.id and isinstance(x.ctx, ast.Store)]
+            return len(defs) == 1 and len(others) == 1 and norm(defs[0].value).endswith(".structure")
+        return False
+
+    comp = [(g_, t, a) for g_, t, a in looks if not is_own_name(g_, a.value.slice)]
+    unguarded = [(g_, x) for g_, x in reads if isinstance(x, ast.Subscript) and not is_own_name(g_, x.slice) and not any(a.value is x for _, _, a in looks)]
+    unguarded += [(g_, x) for g_, x in reads if isinstance(x, ast.Call) and not (x.args and is_own_name(g_, x.args[0]))]
     for g_, x in unguarded:
         if isinstance(x, ast.Call):
             ctx.bad("C09.1", g_, x, f"a structure name is looked up with `{short(x, 50)}`: a name that is not bound yet does not raise AnnotationError")
@@ -366,7 +378,7 @@ def check_identifier_form(ctx):
             ident_stmts = if0.orelse
         else:
             # `if not <name>.isidentifier(): return <composite>` ... the identifier form is what follows
-            need(if0.body and isinstance(if0.body[-1], (ast.Return, ast.Raise)), "C09.3: the composite side of the identifier test does not end in return")
+            need(if0.body and isinstance(if0.body[-1], (ast.Return, ast.Raise, ast.Break, ast.Continue)), "C09.3: the composite side of the identifier test does not leave the block (return / raise / break)")
             blocks = [getattr(n, fld) for n in ast.walk(f.node) for fld in ("body", "orelse", "finalbody") if isinstance(getattr(n, fld, None), list)]
             blk = next((b_ for b_ in blocks if any(x is if0 for x in b_)), None)
             need(blk is not None, "C09.3: the block holding the identifier test was not found")
@@ -375,6 +387,25 @@ def check_identifier_form(ctx):
     memos = [p_ for p_ in f.params if memo_role(p_) == "pytree"]
     need(memos, f"C09.3: {f.qualname} has no structure-memo parameter")
     memo = memos[0]
+    # locals that stand for the structure name (`name = cls.structure`), bound once in the branch
+    region_mod = ast.Module(body=ident_stmts, type_ignores=[])
+    stores = {}
+    for x in ast.walk(f.node):
+        if isinstance(x, ast.Name) and isinstance(x.ctx, ast.Store):
+            stores[x.id] = stores.get(x.id, 0) + 1
+    snames = {sname} | {a.targets[0].id for a in ast.walk(region_mod) if isinstance(a, ast.Assign) and len(a.targets) == 1 and isinstance(a.targets[0], ast.Name)
+                        and norm(a.value) == sname and stores.get(a.targets[0].id) == 1}
+    # the branch may carry its verdict in a local (`ok = False; break` ... `if not ok: return False`, the shape an
+    # extracted-and-inlined predicate has): the statement testing that local belongs to the branch
+    verdict_vars = {a.targets[0].id for a in ast.walk(region_mod) if isinstance(a, ast.Assign) and len(a.targets) == 1 and isinstance(a.targets[0], ast.Name)
+                    and isinstance(a.value, ast.Constant) and isinstance(a.value.value, bool)}
+    tail_ifs = []
+    if verdict_vars:
+        for x in ast.walk(f.node):
+            if isinstance(x, ast.If) and not any(x is y for y in ast.walk(region_mod)):
+                t_ = x.test.operand if isinstance(x.test, ast.UnaryOp) and isinstance(x.test.op, ast.Not) else x.test
+                if isinstance(t_, ast.Name) and t_.id in verdict_vars:
+                    tail_ifs.append(x)
     # the branch is walked on the CFG for {name absent, name bound & same structure, name bound & different
     # structure}: absent -> the tree's structure is stored under the name and the check goes on; same -> goes
     # on without storing; different -> `return False`.  Insensitive to try/except-else vs `in` tests vs guard
@@ -384,7 +415,7 @@ def check_identifier_form(ctx):
 
     g = NoReturn(ctx.model).cfg(f)
     inside = set()
-    region_ids = {id(x) for st in ident_stmts for x in ast.walk(st)}
+    region_ids = {id(x) for st in list(ident_stmts) + tail_ifs for x in ast.walk(st)}
     for n in g.live_nodes():
         if n.kind in ("exit", "exit_e", "exit_b", "entry", "falloff"):
             continue
@@ -398,7 +429,7 @@ def check_identifier_form(ctx):
         starts = [n for n in g.live_nodes() if n.ast is first.test] or starts
     need(starts and inside, "C09.3: the identifier-form branch is not in the CFG")
     lookvars = {norm(a.targets[0]) for a in ast.walk(ast.Module(body=ident_stmts, type_ignores=[])) if isinstance(a, ast.Assign)
-                and isinstance(a.value, ast.Subscript) and norm(a.value.value) == memo and norm(a.value.slice) == sname}
+                and isinstance(a.value, ast.Subscript) and norm(a.value.value) == memo and norm(a.value.slice) in snames}
     gets = [c for c in ast.walk(ast.Module(body=ident_stmts, type_ignores=[])) if isinstance(c, ast.Call) and isinstance(c.func, ast.Attribute)
             and c.func.attr == "get" and norm(c.func.value) == memo]
     if gets:
@@ -410,17 +441,23 @@ def check_identifier_form(ctx):
     def event_of(n):
         a_ = n.ast
         if n.kind == "stmt" and isinstance(a_, ast.Assign) and isinstance(a_.targets[0], ast.Subscript) and norm(a_.targets[0].value) == memo:
-            return f"bind:{norm(a_.targets[0].slice)}={norm(a_.value)}"
+            k_ = norm(a_.targets[0].slice)
+            return f"bind:{sname if k_ in snames else k_}={norm(a_.value)}"
         return None
+
+    from ..absim import env_truth
 
     verdicts = {}
     for label, bound, same in (("absent", False, None), ("same", True, True), ("different", True, False)):
         def atom(e, bound=bound, same=same):
+            v_ = env_truth(e)
+            if v_ is not None:
+                return v_
             if isinstance(e, ast.Compare) and len(e.ops) == 1:
                 l, r_, op = norm(e.left), norm(e.comparators[0]), e.ops[0]
-                if isinstance(op, (ast.In, ast.NotIn)) and r_ == memo and l == sname:
+                if isinstance(op, (ast.In, ast.NotIn)) and r_ == memo and l in snames:
                     return bound if isinstance(op, ast.In) else not bound
-                if isinstance(op, (ast.Eq, ast.NotEq)) and ({l, r_} & lookvars or f"{memo}[{sname}]" in (l, r_)) and "structure" in (l, r_):
+                if isinstance(op, (ast.Eq, ast.NotEq)) and ({l, r_} & lookvars or any(f"{memo}[{s_}]" in (l, r_) for s_ in snames)) and "structure" in (l, r_):
                     if same is None:
                         return None
                     return same if isinstance(op, ast.Eq) else not same
@@ -430,7 +467,7 @@ def check_identifier_form(ctx):
             if n.ast is None or n.kind not in ("stmt", "test", "return"):
                 return None
             for x in ast.walk(n.ast):
-                if isinstance(x, ast.Subscript) and isinstance(x.ctx, ast.Load) and norm(x.value) == memo and norm(x.slice) == sname and not bound:
+                if isinstance(x, ast.Subscript) and isinstance(x.ctx, ast.Load) and norm(x.value) == memo and norm(x.slice) in snames and not bound:
                     return "KeyError"
             return None
 
@@ -453,78 +490,168 @@ def check_identifier_form(ctx):
 
 
 # ------------------------------------------------------------------------ C09.4
+def _is_ellipsis_test(e, which):
+    """`<tokens>[0] == '...'` (which=0) / `<tokens>[-1] == '...'` (which=-1); returns the tokens name or None."""
+    if isinstance(e, ast.Compare) and len(e.ops) == 1 and isinstance(e.ops[0], ast.Eq):
+        l, r_ = e.left, e.comparators[0]
+        if isinstance(l, ast.Constant):
+            l, r_ = r_, l
+        if isinstance(r_, ast.Constant) and r_.value == "..." and isinstance(l, ast.Subscript) and isinstance(l.value, ast.Name):
+            i = l.slice
+            v = i.value if isinstance(i, ast.Constant) else -i.operand.value if isinstance(i, ast.UnaryOp) and isinstance(i.op, ast.USub) and isinstance(i.operand, ast.Constant) else None
+            if v == which:
+                return l.value.id
+    return None
+
+
 def check_mode_table(ctx):
-    f, st = _find_in_check(ctx, lambda n: isinstance(n, ast.If) and norm(n.test) in ("pieces[0] == '...'",), "mode selection on the first token")
+    """'... T' = suffix, 'T ...' = prefix, otherwise exact -- decided by walking the composite branch on the CFG
+    once per mode (leading `...` / trailing `...` / neither): which token is dropped and which of the three
+    comparisons can reject.  Insensitive to how the mode is carried (two flags, flags computed from
+    expressions, elif chain vs guard clauses, verdict in a local of an inlined predicate)."""
+    from ..absim import env_truth, eval_bool, simulate
+    from ..typestate import NoReturn
 
-    def consts(stmts):
-        return {norm(a.targets[0]): a.value.value for a in stmts if isinstance(a, ast.Assign) and isinstance(a.value, ast.Constant)}
+    hits = []
+    for g_ in _pt_functions(ctx):
+        for n in ast.walk(g_.node):
+            if isinstance(n, ast.Compare) and _is_ellipsis_test(n, 0):
+                hits.append((g_, n))
+    if len(hits) != 1:
+        raise AnalysisError(f"C09: mode selection on the first token: found {len(hits)} candidates in jaxtyping/_pytree_type.py (expected 1)")
+    f, first_test = hits[0]
+    toks = _is_ellipsis_test(first_test, 0)
+    g = NoReturn(ctx.model).cfg(f)
+    # start: the CFG node (test or statement) that evaluates the leading-token comparison
+    starts = [n for n in g.live_nodes() if n.ast is not None and n.kind in ("test", "stmt") and any(x is first_test for x in ast.walk(n.ast))]
+    need(len(starts) == 1, "C09.4: the node evaluating the leading-`...` test is not unique in the CFG")
+    leaf_loops = {n.id for n in g.live_nodes() if n.kind == "for" and ("leaves" in norm(n.ast.iter))}
 
-    lead = consts(st.body)
-    trail = {}
-    neither = {}
-    if len(st.orelse) == 1 and isinstance(st.orelse[0], ast.If) and norm(st.orelse[0].test) == "pieces[-1] == '...'":
-        trail = consts(st.orelse[0].body)
-        neither = consts(st.orelse[0].orelse)
-    want = ({"prefix": False, "suffix": True}, {"prefix": True, "suffix": False}, {"prefix": False, "suffix": False})
-    got = (lead, trail, neither)
-    if not all(set(d) >= {"prefix", "suffix"} for d in got):
-        raise AnalysisError(f"C09.4: the mode selected by a leading / trailing `...` is not recorded in two boolean flags `prefix` / `suffix` (found {got}); "
-                            "another encoding of the mode is not interpreted")
-    if got != want:
-        ctx.bad("C09.4", f, st, f"mode table: leading `...` -> {lead}, trailing `...` -> {trail}, neither -> {neither}; the documentation says '... T' = suffix (bottom layer made of T), "
-                "'T ...' = prefix, otherwise exact", construct=f"mode table {got}")
-    else:
-        ctx.ok("C09.4", f.qualname, "leading `...` -> suffix mode, trailing `...` -> prefix mode, neither -> exact")
-    # the slices that drop the `...` token
-    drops = {norm(a) for a in ast.walk(st) if isinstance(a, ast.Assign) and norm(a.targets[0]) == "pieces"}
-    if not drops:
+    # the three comparison algorithms, recognised by what decides them
+    def site_kind(x):
+        """x: a `return False` / `flag = False` statement.  P: in the ValueError handler of a try around tree_map;
+        S: under a test over `tree_leaves(.., is_leaf=..)` pieces; E: under `structure != <composed>`."""
+        for t in ast.walk(f.node):
+            if isinstance(t, ast.Try):
+                for h in t.handlers:
+                    if any(y is x for y in ast.walk(h)) and h.type is not None and norm(h.type) == "ValueError" \
+                            and any(isinstance(c_, ast.Call) and norm(c_.func).split(".")[-1] == "tree_map" for b_ in t.body for c_ in ast.walk(b_)):
+                        return "P"
+        if isinstance(x, ast.Assign) and not isinstance(x.value, ast.Constant):
+            # `ok = <the comparison itself>`
+            v_ = norm(x.value)
+            if v_ in ("structure == named_structure", "named_structure == structure", "not structure != named_structure", "not named_structure != structure"):
+                return "E"
+            if ("any(" in v_ or "all(" in v_) and ("has_structure" in v_ or "dummy_leaves" in v_ or "tree_leaves" in v_ or "tree_structure" in v_):
+                return "S"
+            return "?"
+        guards = [i for i in ast.walk(f.node) if isinstance(i, ast.If) and any(y is x for b_ in i.body + i.orelse for y in ast.walk(b_))]
+        for i in sorted(guards, key=lambda i_: -i_.lineno):
+            t_ = norm(i.test)
+            in_body = any(y is x for b_ in i.body for y in ast.walk(b_))
+            if in_body and t_ in ("structure != named_structure", "named_structure != structure"):
+                return "E"
+            if not in_body and t_ in ("structure == named_structure", "named_structure == structure"):
+                return "E"
+            if ("any(" in t_ or "all(" in t_) and ("has_structure" in t_ or "dummy_leaves" in t_ or "tree_leaves" in t_):
+                return "S"
+            if isinstance(i.test, ast.Compare) and len(i.test.ops) == 1 and isinstance(i.test.left, ast.Attribute) and isinstance(i.test.comparators[0], ast.Attribute) \
+                    and i.test.left.attr == i.test.comparators[0].attr and {norm(i.test.left.value), norm(i.test.comparators[0].value)} == {"structure", "named_structure"}:
+                return "E-weak:" + i.test.left.attr
+        return "?"
+
+    # locals carrying the verdict of an (inlined) predicate: `if not ok: return False`
+    verdict_vars = set()
+    for i_ in ast.walk(f.node):
+        if isinstance(i_, ast.If) and isinstance(i_.test, ast.UnaryOp) and isinstance(i_.test.op, ast.Not) and isinstance(i_.test.operand, ast.Name) \
+                and any(isinstance(y, ast.Return) and isinstance(y.value, ast.Constant) and y.value.value is False for y in i_.body):
+            verdict_vars.add(i_.test.operand.id)
+
+    def event_of(n):
+        a_ = n.ast
+        if n.kind == "stmt" and isinstance(a_, ast.Assign) and len(a_.targets) == 1 and isinstance(a_.targets[0], ast.Name):
+            if a_.targets[0].id in verdict_vars and not (isinstance(a_.value, ast.Constant) and a_.value.value is True):
+                return f"F:{a_.targets[0].id}:{id(a_)}"
+            if a_.targets[0].id == toks:
+                return f"drop:{norm(a_.value)}"
+        return None
+
+    by_id = {id(x): x for x in ast.walk(f.node)}
+    table = {}
+    for mode, lead, trail in (("leading", True, None), ("trailing", False, True), ("neither", False, False)):
+        def atom(e, lead=lead, trail=trail):
+            v_ = env_truth(e)
+            if v_ is not None:
+                return v_
+            if _is_ellipsis_test(e, 0) == toks:
+                return lead
+            if _is_ellipsis_test(e, -1) == toks:
+                return trail
+            return None
+
+        def stop(n):
+            return n.kind in ("return", "raise", "exit", "exit_e", "exit_b", "falloff") or n.id in leaf_loops
+
+        def may_raise(n):
+            # the prefix comparison is decided by tree_map raising ValueError
+            if n.ast is not None and n.kind == "stmt" and any(isinstance(c_, ast.Call) and norm(c_.func).split(".")[-1] == "tree_map" for c_ in ast.walk(n.ast)) \
+                    and any(k == "e" or k == "ValueError" for k, _ in n.succ):
+                return ("maybe", "ValueError")
+            return None
+
+        outs = simulate(g, starts[0], stop, lambda n: eval_bool(n.ast, atom), may_raise, event_of, limit=20000, bool_values=atom, for_exits=True)
+        need(outs, "C09.4: the composite branch has no path")
+        sites, drops = set(), set()
+        for o in outs:
+            ds = tuple(e[5:] for e in o.events if e.startswith("drop:"))
+            drops.add(ds)
+            rejected = o.end.kind == "return" and isinstance(o.end.ast.value, ast.Constant) and o.end.ast.value.value is False
+            if rejected:
+                # `if not ok: return False` after an inlined predicate: the rejection is where `ok` became False
+                var = None
+                for i_ in ast.walk(f.node):
+                    if isinstance(i_, ast.If) and any(y is o.end.ast for y in i_.body):
+                        t_ = i_.test.operand if isinstance(i_.test, ast.UnaryOp) and isinstance(i_.test.op, ast.Not) else None
+                        if isinstance(t_, ast.Name):
+                            var = t_.id
+                fs = [e for e in o.events if var is not None and e.startswith(f"F:{var}:")]
+                sites.add(int(fs[-1].split(":")[2]) if fs else id(o.end.ast))
+        table[mode] = (sites, drops)
+
+    # which token is dropped
+    want_drop = {"leading": {(f"{toks}[1:]",)}, "trailing": {(f"{toks}[:-1]",)}, "neither": {()}}
+    got_drop = {k: v[1] for k, v in table.items()}
+    if all(not any(d for d in ds) for ds in got_drop.values()):
         raise AnalysisError("C09.4: how the `...` token is removed from the token list was not recognised")
-    if drops != {"pieces = pieces[1:]", "pieces = pieces[:-1]"}:
-        ctx.bad("C09.4", f, st, f"the `...` token is not removed from the right end of the token list: {sorted(drops)}")
-    # rejections of the composite branch
-    f, c = _find_in_check(ctx, lambda n: isinstance(n, ast.If) and norm(n.test) == "prefix", "dispatch on the mode")
-    rej = {}
-    def rejections(stmts):
-        out = []
-        for s in stmts:
-            for x in ast.walk(s):
-                if isinstance(x, ast.Return) and isinstance(x.value, ast.Constant) and x.value.value is False:
-                    out.append(x)
-        return out
-
-    pre = rejections(c.body)
-    suf = exact = []
-    if len(c.orelse) == 1 and isinstance(c.orelse[0], ast.If) and norm(c.orelse[0].test) == "suffix":
-        suf = rejections(c.orelse[0].body)
-        exact = rejections(c.orelse[0].orelse)
-    # prefix: the only rejection is the ValueError of tree_map
-    ok_pre = len(pre) == 1 and any(isinstance(t, ast.Try) and any(h.type is not None and norm(h.type) == "ValueError" and any(y is pre[0] for y in ast.walk(h)) for h in t.handlers)
-                                   for t in ast.walk(c))
-    ok_suf = len(suf) == 1
-    ok_exact = len(exact) == 1
-    # no other rejection anywhere in the composite branch
-    ident = [x for x in ast.walk(f.node) if isinstance(x, ast.If) and norm(x.test).endswith(".structure.isidentifier()")]
-    if ident:
-        all_rej = rejections(ident[0].orelse)
+    if got_drop != want_drop:
+        ctx.bad("C09.4", f, first_test, f"the `...` token is not removed from the right end of the token list: "
+                + ", ".join(f"{k} `...` -> {sorted(' then '.join(d) or 'nothing dropped' for d in v)}" for k, v in got_drop.items()),
+                construct="token drop table " + str({k: sorted(v) for k, v in got_drop.items()}))
+    # which comparison decides
+    kinds = {}
+    for mode, (sites, _) in table.items():
+        kinds[mode] = sorted(site_kind(by_id[s_]) for s_ in sites)
+    want = {"leading": ["S"], "trailing": ["P"], "neither": ["E"]}
+    weak = [k_ for v in kinds.values() for k_ in v if k_.startswith("E-weak:")]
+    if weak and kinds["neither"] == weak:
+        x = by_id[next(iter(table["neither"][0]))]
+        ctx.bad("C09.4", f, x, f"exact mode does not reject exactly when the tree's structure differs from the composed structure: it compares only `.{weak[0][7:]}` of the two")
+        return
+    if any("?" in v or len(v) != 1 for v in kinds.values()):
+        raise AnalysisError(f"C09.4: the composite-structure check has rejection paths the rule does not know ({kinds}; P = tree_map raised, S = a bottom-layer piece is not T, "
+                            "E = structures differ): whether an additional early rejection is sound depends on tree values and cannot be decided statically")
+    if kinds != want:
+        ctx.bad("C09.4", f, first_test, f"mode table: a leading `...` is decided by {kinds['leading']}, a trailing `...` by {kinds['trailing']}, neither by {kinds['neither']} "
+                "(P = prefix comparison, S = suffix comparison, E = exact comparison); the documentation says '... T' = suffix (bottom layer made of T), 'T ...' = prefix, otherwise exact",
+                construct=f"mode table {kinds}")
     else:
-        # the composite branch lives in a helper of its own: every rejection of that helper counts
-        all_rej = rejections(f.body)
-    known = {id(x) for x in pre + suf + exact}
-    extra = [x for x in all_rej if id(x) not in known]
-    if not (ok_pre and ok_suf and ok_exact) or extra:
-        raise AnalysisError(f"C09.4: the composite-structure check has rejection paths the rule does not know (prefix {len(pre)}, suffix {len(suf)}, exact {len(exact)}, elsewhere {len(extra)}): "
-                            "whether an additional early rejection is sound depends on tree values and cannot be decided statically")
+        ctx.ok("C09.4", f.qualname, "leading `...` -> suffix comparison, trailing `...` -> prefix comparison, neither -> exact comparison; the `...` token is dropped from the matching end")
     # suffix mode delegates "the bottom layer consists of copies of T" to jax: flatten the tree with
     # `is_leaf = has the structure T` and require every piece to have it.  A hand-written traversal (e.g. over
     # PyTreeDef.children()) decides what a node / an empty container is on its own: value-level, no verdict.
-    suf_body = c.orelse[0].body if (len(c.orelse) == 1 and isinstance(c.orelse[0], ast.If)) else []
-    delegated = [x for b_ in suf_body for x in ast.walk(b_) if isinstance(x, ast.Call) and norm(x.func).split(".")[-1] in ("tree_leaves", "tree_flatten")
-                 and any(k.arg == "is_leaf" for k in x.keywords)]
+    delegated = [x for x in ast.walk(f.node) if isinstance(x, ast.Call) and norm(x.func).split(".")[-1] in ("tree_leaves", "tree_flatten")
+                 and any(k.arg == "is_leaf" and "structure" in norm(k.value) for k in x.keywords)]
     if not delegated:
         raise AnalysisError("C09.4: the suffix ('... T') comparison does not flatten the tree with jax's tree_leaves(..., is_leaf=<has structure T>); "
                             "a hand-written traversal of the tree structure cannot be judged statically")
-    ex_if = [x for x in ast.walk(c) if isinstance(x, ast.If) and any(y is exact[0] for y in x.body)]
-    if not any(norm(x.test) in ("structure != named_structure", "named_structure != structure") for x in ex_if):
-        ctx.bad("C09.4", f, exact[0], "exact mode does not reject exactly when the tree's structure differs from the composed structure")
-    else:
-        ctx.ok("C09.4", f.qualname, "exact: reject iff structure != composed structure; prefix: reject iff tree_map raises; suffix: reject iff some bottom-layer piece is not T")
+    ctx.ok("C09.4", f.qualname, "exact: reject iff structure != composed structure; prefix: reject iff tree_map raises; suffix: reject iff some bottom-layer piece is not T")
